@@ -160,6 +160,9 @@ func runFrames(c FCase) error {
 			if err != nil {
 				return fmt.Errorf("frame %d: ISO parser rejects the encoder output %x: %v", i, head(fb), err)
 			}
+			if h.Blocks != 0 {
+				return fmt.Errorf("frame %d: the encoder's header announces %d raw data blocks in the frame, it holds one (number_of_raw_data_blocks_in_frame must be 0)", i, h.Blocks+1)
+			}
 			if h.Profile != profileOf(f.Object) || h.SFI != f.SFI || h.Channels != f.Ch || h.FrameLength != 7+len(raw) || h.ProtectionAbsent != 1 {
 				return fmt.Errorf("frame %d: ISO parser reads profile %d index %d channels %d length %d protection_absent %d, want %d %d %d %d 1", i,
 					h.Profile, h.SFI, h.Channels, h.FrameLength, h.ProtectionAbsent, profileOf(f.Object), f.SFI, f.Ch, 7+len(raw))
@@ -387,7 +390,7 @@ func runObject(c OCase) error {
 			if err != nil {
 				return fmt.Errorf("step %d: ISO parser rejects the encoder output %x: %v", i, head(fb), err)
 			}
-			if h.Profile != profileOf(cur.object) || h.SFI != cur.sfi || h.Channels != cur.ch || h.FrameLength != 7+len(raw) {
+			if h.Profile != profileOf(cur.object) || h.SFI != cur.sfi || h.Channels != cur.ch || h.FrameLength != 7+len(raw) || h.Blocks != 0 {
 				return fmt.Errorf("step %d: Encode on an object configured with object %d index %d channels %d wrote profile %d index %d channels %d length %d (raw %d bytes)", i,
 					cur.object, cur.sfi, cur.ch, h.Profile, h.SFI, h.Channels, h.FrameLength, len(raw))
 			}
